@@ -147,11 +147,12 @@ func (m *MoovBox) RemovePsshs() []*PsshBox {
 
 func (m *MoovBox) GetSinf(trackID uint32) *SinfBox {
 	for _, trak := range m.Traks {
-		if trak.Tkhd.TrackID == trackID {
-			stsd := trak.Mdia.Minf.Stbl.Stsd
-			if len(stsd.Children) == 0 {
+		if trak.Tkhd != nil && trak.Tkhd.TrackID == trackID {
+			stbl := trak.getStbl()
+			if stbl == nil || stbl.Stsd == nil || len(stbl.Stsd.Children) == 0 {
 				return nil
 			}
+			stsd := stbl.Stsd
 			sd := stsd.Children[0] // Get first (and only)
 			switch box := sd.(type) {
 			case *VisualSampleEntryBox:
@@ -167,11 +168,12 @@ func (m *MoovBox) GetSinf(trackID uint32) *SinfBox {
 // IsEncrypted returns true if SampleEntryBox is "encv" or "enca"
 func (m *MoovBox) IsEncrypted(trackID uint32) bool {
 	for _, trak := range m.Traks {
-		if trak.Tkhd.TrackID == trackID {
-			stsd := trak.Mdia.Minf.Stbl.Stsd
-			if len(stsd.Children) == 0 {
+		if trak.Tkhd != nil && trak.Tkhd.TrackID == trackID {
+			stbl := trak.getStbl()
+			if stbl == nil || stbl.Stsd == nil || len(stbl.Stsd.Children) == 0 {
 				return false
 			}
+			stsd := stbl.Stsd
 			sd := stsd.Children[0] // Get first (and only)
 			switch box := sd.(type) {
 			case *VisualSampleEntryBox:
